@@ -510,12 +510,27 @@ fn run_case(cx: &mut Ctx, c: &Value, force: bool) {
         }
         "fixedcap" => {
             let cell = "FixedCapacityMemoryPool";
-            cx.sum.eval(cell, &key, nontrivial); cx.sum.cell_status(cell, "S-only");
+            cx.sum.eval(cell, &key, nontrivial);
             let cfg = fc_config(u(c, "preset"), u(c, "mbs") as usize, u(c, "blocks") as usize, u(c, "align") as usize, u(c, "flags"));
             let pool = match guarded(|| FixedCapacityMemoryPool::new(cfg.clone())) { Ok(Ok(p)) => p, Ok(Err(_)) => { cx.sum.dist("pool_new_refused"); return; }
                 Err(p) => { cx.sum.fail(cell, None, c.clone(), &format!("FixedCapacityMemoryPool::new panicked: {}", p)); return; } };
+            let (mx, al, nb) = (cfg.max_block_size, cfg.alignment, cfg.total_blocks);
             let mut put = FcPut { h: HashMap::new(), pool: Box::new(pool), cfg };
-            drive(cx, cell, c, &mut put, &ops);
+            if let Some(obs) = drive(cx, cell, c, &mut put, &ops) {
+                // model comparison (pools of at most 2000 blocks keep the Coq terms small)
+                if nb <= 2000 && (force || cx.shards.len() < cx.budget) {
+                    let first = ops.iter().zip(obs.iter()).find(|(o, r)| o[0] == 0 && r.is_some()).map(|(_, r)| r.unwrap()).unwrap_or(0);
+                    let mut cops = vec![]; let mut exp = vec![];
+                    for (o, r) in ops.iter().zip(obs.iter()) {
+                        match o[0] {
+                            0 => { cops.push(format!("FAlloc {}", o[1])); exp.push(coq_oz(&r.map(|a| a - first))); }
+                            1 => { cops.push(format!("FFree {}", o[1])); exp.push(coq_oz(r)); }
+                            _ => {}
+                        }
+                    }
+                    cx.shards.push(format!("CFc {} {} {} [{}] [{}]", mx, al, nb, cops.join("; "), exp.join("; ")), c.clone());
+                }
+            }
         }
         "bump" => {
             let cell = if u(c, "arena") != 0 { "BumpArena" } else { "BumpAllocator" };
